@@ -7,6 +7,7 @@ import (
 	"reflect"
 	"regexp"
 	"strings"
+	"sync"
 
 	"mvdan.cc/sh/v3/syntax"
 	"mvdan.cc/sh/v3/syntax/typedjson"
@@ -36,7 +37,7 @@ type c15Case struct {
 	Kind     int    `json:"kind,omitempty"`
 	BigLines int    `json:"big_lines,omitempty"`
 	BigCols  int    `json:"big_cols,omitempty"`
-	Doc      string `json:"doc,omitempty"`
+	Docs     []string `json:"docs,omitempty"`
 }
 
 func (t c15Case) source() string {
@@ -57,6 +58,13 @@ const c15RecoverMax = 8
 
 var c15U = c15BuildUniverse()
 
+// c15Claimed maps an encoded document (prefixed by the mode) to the program
+// of the case that mutates it.
+var c15Claimed sync.Map
+
+// c15Dry (development aid) only counts the mutants.
+var c15Dry = os.Getenv("VERIF_C15_DRY") != ""
+
 var c15AllVariants = []string{"bash", "posix", "mksh", "bats", "zsh"}
 
 // c15MutVariants are the variants whose parses provide documents to mutate
@@ -68,18 +76,22 @@ func c15(c *vc.Ctx) {
 	space := synSpace{Depth: vc.Pick(c, 1, 2), CoreOnly: true, LayoutDepth: vc.Pick(c, 0, 1), Corpus: true, AllVariantsDeep: !c.Quick()}
 	prefixMaxLen := vc.Pick(c, 16, 64) // longest kind 0/1 program whose proper prefixes are taken
 	mutDepth := vc.Pick(c, 0, 1)          // grammar depth of the programs whose documents are mutated
-	mutMaxSingles := vc.Pick(c, 6000, 60000)
-	pairMaxSingles := vc.Pick(c, 400, 1000)
+	mutMaxSingles := vc.Pick(c, 6000, 6000)
+	pairMaxSingles := vc.Pick(c, 400, 800)
 	fullMenu := &c15Menu{Values: c15ValueMenu(), Renames: []string{"Type", "Pos", "End", "Offset", "Line", "Col", "Nope"}, DocKeys: true, Types: append(append([]string{}, c15U.TypeNames...), "Nope", "")}
 	pairMenu := &c15Menu{Values: c15ValueMenu(), Renames: []string{"Type", "Pos", "Value", "Parts", "Op", "Nope"}, Types: c15U.TypeNames}
 	c.Rule = space.describe() + fmt.Sprintf("; PLUS every proper prefix of the corpus and depth<=1 programs of <=%d bytes, PLUS byte-string programs (every string of <=2 bytes over 12 bytes incl. invalid UTF-8, C0 controls, quotes, plus U+2028/U+2029/U+FFFD/surrogate/out-of-range encodings, in 6 lexical contexts), PLUS 9 generated programs whose positions reach and overflow the line (18 bit) and column (14 bit) fields; each program is parsed in all 5 variants with comments kept, and when that fails again with RecoverErrors(%d) (so recovered positions occur); programs containing '{' are additionally taken with every word split by SplitBraces (BraceExp nodes); a tree identical (reflect.DeepEqual) to that of an earlier variant of the same program is checked once. ROUND TRIP, for the root and EVERY sub-node (found by reflection, incl. comments) as the encoded node: Decode(Encode(n)) must succeed and be equal to n field by field (own reflective comparison: same dynamic types, pointer nil-ness, slices element-wise with nil==empty, strings/bools/integers/operators equal, every Pos identical except a recovered Pos which must decode to the zero Pos), Encode(Decode(Encode(n))) byte-identical; the same with Indent for the root. DECODE ROBUSTNESS: (1) for the documents of every node of the depth<=%d default-layout programs (parses in bash, zsh, bats; documents with <=%d single mutations; larger ones counted as skipped) EVERY single-point mutation: each JSON value replaced by each of %d menu values, each member deleted, each key renamed to each key occurring anywhere in the document and to Type/Pos/End/Offset/Line/Col/Nope, each array element deleted, each object's Type set to each of %d names; (2) for documents with <=%d reduced-menu mutations every ORDERED PAIR of mutations (the second enumerated on the mutated document); (3) the full matrix {Type:T, F:v} for every reachable struct type T (%d, non-node structs wrapped in a parent) x every field name F of any struct (%d names + Type/Pos/End/Nope) x every menu value v, [v], {Type:T2}, [{Type:T2}] for all %d node types T2; oracle: Decode returns without panicking; distinct = distinct root documents + distinct decode outcomes of matrix documents",
 		prefixMaxLen, c15RecoverMax, mutDepth, mutMaxSingles, len(fullMenu.Values), len(fullMenu.Types), pairMaxSingles, len(c15U.Contexts), len(c15U.FieldNames), len(c15U.TypeNames))
+	c.BatchSize = 4 // mutation cases take seconds; the budget is checked between batches
 	c.Assumptions = []string{
 		"the comparison treats a nil and an empty slice as equal (the encoder omits empty slices by design)",
 		"trees after syntax.SplitBraces are included although the statement says 'parsed tree' (BraceExp is a registered node type the parser never produces)",
 		"encoding/json (parsing and rendering of JSON text) is trusted",
 	}
 
+	if c15Dry {
+		c.CapNote("VERIF_C15_DRY: mutants are counted, not decoded")
+	}
 	gen := func(emit0 func(c15Case)) {
 		emit := emit0
 		if only := os.Getenv("VERIF_C15_ONLY"); only != "" { // development aid: e.g. "rt0 rt5 mut1 doc0"
@@ -187,7 +199,7 @@ func c15(c *vc.Ctx) {
 			}
 		}
 		// 7. the (struct type, field, value) matrix
-		c15Matrix(func(doc string) { emit(c15Case{Mode: "doc", Doc: doc}) })
+		c15Matrix(func(docs []string) { emit(c15Case{Mode: "doc", Docs: docs}) })
 	}
 
 	complete := vc.Run(c, gen, func(t c15Case) *vc.Fail {
@@ -199,20 +211,27 @@ func c15(c *vc.Ctx) {
 		case "mut2":
 			return c15Mutate(c, t, pairMenu, pairMenu, pairMaxSingles)
 		case "doc":
-			c.Count("matrix_docs", 1)
-			out, fl := c15Decode(c, []byte(t.Doc))
-			if fl == nil {
-				c.Distinct("m:" + out)
+			c.Count("matrix_docs", len(t.Docs))
+			c.Eval(len(t.Docs) - 1)
+			var first *vc.Fail
+			for _, doc := range t.Docs {
+				out, fl := c15Decode(c, []byte(doc))
+				if fl == nil {
+					c.Distinct("m:" + out)
+				} else if first == nil || (first.Class != "" && fl.Class == "") {
+					first = fl
+				}
 			}
-			return fl
+			return first
 		}
 		return vc.Failf("bad case", "unknown mode %q", t.Mode)
 	})
 	c.Finish(complete)
 }
 
-// c15Matrix emits {Type:T, F:v} documents for every reachable struct type.
-func c15Matrix(emit func(doc string)) {
+// c15Matrix emits {Type:T, F:v} documents for every reachable struct type,
+// one group per (struct type, field name).
+func c15Matrix(emit func(docs []string)) {
 	var vals []*c15jv
 	for _, v := range c15ValueMenu() {
 		vals = append(vals, v, c15Arr(v))
@@ -232,6 +251,7 @@ func c15Matrix(emit func(doc string)) {
 			if f == "Type" {
 				vs = append(append([]*c15jv{}, vals...), typeVals...)
 			}
+			var docs []string
 			for _, v := range vs {
 				var obj *c15jv
 				if cx.Node && f != "Type" {
@@ -241,8 +261,9 @@ func c15Matrix(emit func(doc string)) {
 				}
 				b.Reset()
 				cx.Wrap(obj).render(&b)
-				emit(b.String())
+				docs = append(docs, b.String())
 			}
+			emit(docs)
 		}
 	}
 }
@@ -669,7 +690,8 @@ func c15Mutate(c *vc.Ctx, t c15Case, menu0, second *c15Menu, maxSingles int) *vc
 	seen := map[string]bool{}
 	var first *vc.Fail
 	var buf bytes.Buffer
-	toTree := 0
+	toTree, dup := 0, 0
+	defer func() { c.Count("documents_already_mutated_in_another_case", dup) }()
 	for _, tr := range c15Trees(c, t) {
 		for _, n := range c15AllNodes(tr.file) {
 			enc, err, pan := c15Encode(n, "")
@@ -680,6 +702,13 @@ func c15Mutate(c *vc.Ctx, t c15Case, menu0, second *c15Menu, maxSingles int) *vc
 				continue
 			}
 			seen[string(enc)] = true
+			// A document reached from several programs is mutated once: by
+			// the case that claims it first (a re-execution of that case
+			// mutates it again).
+			if owner, loaded := c15Claimed.LoadOrStore(t.Mode+string(enc), t.Src); loaded && owner.(string) != t.Src {
+				dup++
+				continue
+			}
 			root, err := c15ParseJSON(enc)
 			if err != nil {
 				return vc.Failf(t.label(tr.variant)+" harness", "cannot re-read the encoding: %v", err)
@@ -697,6 +726,9 @@ func c15Mutate(c *vc.Ctx, t c15Case, menu0, second *c15Menu, maxSingles int) *vc
 			}
 			c.Count("documents_"+t.Mode, 1)
 			visitDoc := func() bool {
+				if c15Dry {
+					return true
+				}
 				buf.Reset()
 				root.render(&buf)
 				out, fl := c15Decode(c, buf.Bytes())
@@ -716,7 +748,7 @@ func c15Mutate(c *vc.Ctx, t c15Case, menu0, second *c15Menu, maxSingles int) *vc
 			c15EachMutation(&root, menu, func() bool {
 				n1++
 				if second == nil {
-					return visitDoc()
+					return visitDoc() && (n1%4096 != 0 || !c.Expired())
 				}
 				n2 := 0
 				c15EachMutation(&root, second, func() bool { n2++; return visitDoc() })
